@@ -1,7 +1,671 @@
 package main
 
-import "verifharness/hx"
+// Parts (iii) and (iv) of driver "visitors": an in-process frps with scripted owner and visitor
+// sessions, and byte transparency through a real frpc owner and a real frpc visitor.
+
+import (
+	"bytes"
+	"fmt"
+	"io"
+	"net"
+	"strings"
+	"sync"
+	"time"
+
+	v1 "github.com/fatedier/frp/pkg/config/v1"
+	"github.com/fatedier/frp/pkg/msg"
+	"github.com/fatedier/frp/pkg/nathole"
+	"github.com/fatedier/frp/pkg/util/util"
+	"verifharness/hx"
+)
+
+const (
+	sysAddr  = "127.0.8.1"
+	realAddr = "127.0.8.2"
+	negWait  = 15 * time.Millisecond // how long "nothing arrives" is observed
+	posWait  = 4 * time.Second
+)
+
+// started is a work connection on which the server wrote StartWorkConn: the moment a real frpc
+// would dial its backend.
+type started struct {
+	s    *sess
+	conn net.Conn
+	m    msg.StartWorkConn
+}
+
+// sess is a scripted session whose control channel is read by a goroutine.
+type sess struct {
+	p        *hx.Peer
+	idx      int
+	user     string
+	proxyRes chan *msg.NewProxyResp
+	pong     chan struct{}
+	nhResp   chan *msg.NatHoleResp
+	startedC chan started
+	mu       sync.Mutex
+	reqs     int
+	closed   bool
+}
+
+func newSess(p *hx.Peer, idx int, user string, startedC chan started) *sess {
+	s := &sess{p: p, idx: idx, user: user, proxyRes: make(chan *msg.NewProxyResp, 8), pong: make(chan struct{}, 8),
+		nhResp: make(chan *msg.NatHoleResp, 8), startedC: startedC}
+	go s.loop()
+	return s
+}
+
+func (s *sess) loop() {
+	for {
+		m, err := msg.ReadMsg(s.p.RW)
+		if err != nil {
+			return
+		}
+		switch v := m.(type) {
+		case *msg.ReqWorkConn:
+			s.mu.Lock()
+			s.reqs++
+			s.mu.Unlock()
+			go s.offer()
+		case *msg.NewProxyResp:
+			s.proxyRes <- v
+		case *msg.Pong:
+			s.pong <- struct{}{}
+		case *msg.NatHoleResp:
+			s.nhResp <- v
+		}
+	}
+}
+
+func (s *sess) reqCount() int {
+	s.mu.Lock()
+	defer s.mu.Unlock()
+	return s.reqs
+}
+
+// offer answers a ReqWorkConn the way frpc does and waits for StartWorkConn on the new connection.
+func (s *sess) offer() {
+	c, err := s.p.WorkConn(true)
+	if err != nil {
+		return
+	}
+	var sw msg.StartWorkConn
+	if err := msg.ReadMsgInto(c, &sw); err != nil {
+		c.Close()
+		return
+	}
+	s.startedC <- started{s, c, sw}
+}
+
+// sync: a Ping/Pong round trip; control messages of one session are handled in order.
+func (s *sess) sync() bool {
+	if err := s.p.Ping(true); err != nil {
+		return false
+	}
+	select {
+	case <-s.pong:
+		return true
+	case <-time.After(2 * time.Second):
+		return false
+	}
+}
+
+type sysReg struct {
+	owner    *sess
+	kind     string
+	sk       string
+	allow    []string
+	pue, puc bool
+}
+
+func kindCoq(k string) string {
+	switch k {
+	case "stcp":
+		return "KStcp"
+	case "sudp":
+		return "KSudp"
+	}
+	return "KXtcp"
+}
+
+func systemCase(g *gen, dist map[string]int) (string, []map[string]string, error) {
+	nathole.NatHoleTimeout = 0
+	srv, err := hx.StartServer(sysAddr, nil)
+	if err != nil {
+		return "", nil, err
+	}
+	defer srv.Close()
+	startedC := make(chan started, 64)
+	ht := newHTable()
+	for _, s := range skPool {
+		ht.addSk(s)
+	}
+	var ops, obs []string
+	var fails []map[string]string
+	fail := func(key, what, c string) {
+		fails = append(fails, map[string]string{"key": key, "what": what, "case": c})
+	}
+	var sessions []*sess
+	login := func(user string) (*sess, error) {
+		p, resp, err := srv.Login(hx.LoginOpts{User: user})
+		if err != nil {
+			return nil, err
+		}
+		if p == nil {
+			return nil, fmt.Errorf("login refused: %s", resp.Error)
+		}
+		s := newSess(p, len(sessions), user, startedC)
+		sessions = append(sessions, s)
+		ops = append(ops, fmt.Sprintf("SLogin %s %s", hx.HxS(p.RunID), hx.HxS(user)))
+		obs = append(obs, obsZ(0))
+		return s, nil
+	}
+	defer func() {
+		for _, s := range sessions {
+			s.p.Close()
+		}
+	}()
+	sysUsers := []string{"", "alice", "bob", "alice", "mallory", "*"}
+	nsess := 3 + g.Intn(2)
+	for i := 0; i < nsess; i++ {
+		u := sysUsers[g.Intn(len(sysUsers))]
+		if i == 1 && g.Chance(0.5) {
+			u = sessions[0].user // a second session of the same user is the normal visitor
+		}
+		if _, err := login(u); err != nil {
+			return "", nil, err
+		}
+	}
+	regs := map[string]*sysReg{}
+	liveSess := func() []*sess {
+		var l []*sess
+		for _, s := range sessions {
+			if !s.closed {
+				l = append(l, s)
+			}
+		}
+		return l
+	}
+	pickSess := func() *sess { l := liveSess(); return l[g.Intn(len(l))] }
+	drainStarted := func(d time.Duration) []started {
+		var out []started
+		deadline := time.After(d)
+		for {
+			select {
+			case st := <-startedC:
+				out = append(out, st)
+			case <-deadline:
+				return out
+			}
+		}
+	}
+	var cid int64
+	n := 8 + g.Intn(10)
+	for i := 0; i < n; i++ {
+		r := g.Intn(100)
+		if i < 2 {
+			r = 0
+		}
+		switch {
+		case r < 18: // register
+			s := sessions[0]
+			if g.Chance(0.3) {
+				s = pickSess()
+			}
+			if s.closed {
+				continue
+			}
+			kind := []string{"stcp", "stcp", "sudp", "xtcp", "xtcp"}[g.Intn(5)]
+			name, sk, allow := g.Pick(namePool), g.sk(), g.allow()
+			pue, puc := g.Chance(0.5), g.Chance(0.5)
+			if err := s.p.Send(&msg.NewProxy{ProxyName: name, ProxyType: kind, Sk: sk, AllowUsers: allow,
+				UseEncryption: pue, UseCompression: puc}); err != nil {
+				return "", nil, err
+			}
+			var resp *msg.NewProxyResp
+			select {
+			case resp = <-s.proxyRes:
+			case <-time.After(3 * time.Second):
+				return "", nil, fmt.Errorf("no NewProxyResp")
+			}
+			z := int64(0)
+			switch {
+			case resp.Error == "":
+				regs[name] = &sysReg{s, kind, sk, allow, pue, puc}
+			case strings.Contains(resp.Error, "already exists"):
+				z = 1
+			case strings.Contains(resp.Error, "repeated"):
+				z = 2
+			default:
+				z = 99
+			}
+			ops = append(ops, fmt.Sprintf("SRegister %s %s %s %s %s", hx.HxS(s.p.RunID), kindCoq(kind), hx.HxS(name), hx.HxS(sk), coqStrs(allow)))
+			obs = append(obs, obsZ(z))
+			dist[fmt.Sprintf("sys-register:%s:%d", kind, z)]++
+		case r < 25: // close proxy (by its owner mostly, sometimes by somebody else)
+			name := g.liveName(regNames(regs))
+			s := pickSess()
+			if reg, ok := regs[name]; ok && g.Chance(0.7) {
+				s = reg.owner
+			}
+			if s.closed {
+				continue
+			}
+			_ = s.p.CloseProxy(name)
+			if !s.sync() {
+				return "", nil, fmt.Errorf("no pong after CloseProxy")
+			}
+			if reg, ok := regs[name]; ok && reg.owner == s {
+				delete(regs, name)
+			}
+			ops = append(ops, fmt.Sprintf("SClose %s %s", hx.HxS(s.p.RunID), hx.HxS(name)))
+			obs = append(obs, obsZ(0))
+			dist["sys-close"]++
+		case r < 29: // a session ends (not the last one)
+			l := liveSess()
+			if len(l) < 3 {
+				continue
+			}
+			s := l[g.Intn(len(l))]
+			s.closed = true
+			s.p.Close()
+			gone := false
+			for k := 0; k < 400; k++ {
+				if !srv.Svc.VerifC08HasSession(s.p.RunID) {
+					gone = true
+					break
+				}
+				time.Sleep(5 * time.Millisecond)
+			}
+			if !gone {
+				return "", nil, fmt.Errorf("session did not end")
+			}
+			for nme, reg := range regs {
+				if reg.owner == s {
+					delete(regs, nme)
+				}
+			}
+			ops = append(ops, fmt.Sprintf("SLogout %s", hx.HxS(s.p.RunID)))
+			obs = append(obs, obsZ(0))
+			dist["sys-logout"]++
+		case r < 70: // stream visitor connection
+			name := g.liveName(regNamesOf(regs, g.Chance(0.85), false))
+			reg := regs[name]
+			ts := g.ts()
+			ht.addTs(ts)
+			realSk := g.sk()
+			var allow []string
+			if reg != nil {
+				realSk = reg.sk
+				allow = reg.allow
+				if len(allow) == 0 {
+					allow = []string{reg.owner.user}
+				}
+			}
+			sign, kind := g.sign(realSk, ts, 0.75)
+			// whose run id the message carries
+			rid, ridKind := "", "empty"
+			switch x := g.Intn(10); {
+			case x < 1:
+			case x < 2:
+				rid, ridKind = "no-such-run-id", "unknown"
+			default:
+				var cand []*sess
+				for _, s := range liveSess() {
+					if g.Chance(0.5) || contains(allow, s.user) {
+						cand = append(cand, s)
+					}
+				}
+				if len(cand) == 0 {
+					cand = liveSess()
+				}
+				rid, ridKind = cand[g.Intn(len(cand))].p.RunID, "session"
+			}
+			vue, vuc := g.Chance(0.5), g.Chance(0.5)
+			cid++
+			before := 0
+			for _, s := range sessions {
+				before += s.reqCount()
+			}
+			vc, err := srv.Dial()
+			if err != nil {
+				return "", nil, err
+			}
+			_ = msg.WriteMsg(vc, &msg.NewVisitorConn{RunID: rid, ProxyName: name, SignKey: sign, Timestamp: ts,
+				UseEncryption: vue, UseCompression: vuc})
+			var resp msg.NewVisitorConnResp
+			_ = vc.SetReadDeadline(time.Now().Add(3 * time.Second))
+			if err := msg.ReadMsgInto(vc, &resp); err != nil {
+				vc.Close()
+				return "", nil, fmt.Errorf("no NewVisitorConnResp: %v", err)
+			}
+			_ = vc.SetReadDeadline(time.Time{})
+			z := vmErrTextClass(resp.Error)
+			opText := fmt.Sprintf("SVisitorConn %s %s %s %s %s %s %s true", hx.HxS(rid), hx.HxS(name), hx.Z(ts), hx.HxS(sign),
+				hx.Bool(vue), hx.Bool(vuc), hx.Z(cid))
+			ops = append(ops, opText)
+			obs = append(obs, obsZ(z))
+			dist[fmt.Sprintf("sys-visitor:%d:rid=%s", z, ridKind)]++
+			dist["sign:"+kind]++
+			// what do the owners see?
+			wait := negWait
+			if z == 0 {
+				wait = posWait
+			}
+			var sts []started
+			if z == 0 {
+				select {
+				case st := <-startedC:
+					sts = append(sts, st)
+					sts = append(sts, drainStarted(2*time.Millisecond)...)
+				case <-time.After(wait):
+				}
+			} else {
+				sts = drainStarted(wait)
+			}
+			after := 0
+			for _, s := range sessions {
+				after += s.reqCount()
+			}
+			acc := obsAccept(-1, false, false, "", true)
+			if len(sts) > 0 {
+				st := sts[0]
+				ok := reg != nil && st.m.ProxyName == name && st.s == reg.owner && len(sts) == 1
+				tr := false
+				if ok {
+					mv, e1 := mirror(vc, vue, vuc, reg.sk)
+					mw, e2 := mirror(st.conn, reg.pue, reg.puc, hx.DefaultToken)
+					if e1 == nil && e2 == nil {
+						tr = transparent(mv, mw, func(t time.Time) { _ = vc.SetDeadline(t); _ = st.conn.SetDeadline(t) }, g.Bytes(1+g.Intn(4000)))
+					}
+					acc = obsAccept(cid, vue, vuc, reg.sk, tr)
+				} else {
+					acc = obsAccept(-2, vue, vuc, "", false)
+				}
+				if !ok || !tr || z != 0 {
+					fail("system:stream-visitor-bridged-wrongly",
+						"a visitor connection reached an owner's work connection although it was refused, or reached the wrong owner/proxy, or the bridged stream is not byte-transparent",
+						fmt.Sprintf("%s resp=%q started=%d proxy=%q transparent=%v", opText, resp.Error, len(sts), st.m.ProxyName, tr))
+				}
+				for _, x := range sts {
+					x.conn.Close()
+				}
+				dist["sys-backend-contacted"]++
+			} else if z != 0 && after != before {
+				fail("system:owner-notified-on-refusal",
+					"an owner session received a work-connection request for a refused visitor connection",
+					fmt.Sprintf("%s resp=%q", opText, resp.Error))
+			}
+			vc.Close()
+			ops = append(ops, fmt.Sprintf("SAccept %s", hx.HxS(name)))
+			obs = append(obs, acc)
+		default: // NAT-hole visitor message on a session's control channel
+			name := g.liveName(regNamesOf(regs, g.Chance(0.85), true))
+			reg := regs[name]
+			ts := g.ts()
+			ht.addTs(ts)
+			realSk := g.sk()
+			var allow []string
+			if reg != nil {
+				realSk = reg.sk
+				allow = reg.allow
+				if len(allow) == 0 {
+					allow = []string{reg.owner.user}
+				}
+			}
+			sign, kind := g.sign(realSk, ts, 0.75)
+			var cand []*sess
+			for _, s := range liveSess() {
+				if g.Chance(0.4) || contains(allow, s.user) {
+					cand = append(cand, s)
+				}
+			}
+			if len(cand) == 0 {
+				cand = liveSess()
+			}
+			vs := cand[g.Intn(len(cand))]
+			pre := g.Chance(0.35)
+			before := 0
+			for _, s := range sessions {
+				before += s.reqCount()
+			}
+			if err := vs.p.Send(&msg.NatHoleVisitor{TransactionID: "tx", ProxyName: name, PreCheck: pre, Protocol: "quic",
+				SignKey: sign, Timestamp: ts}); err != nil {
+				return "", nil, err
+			}
+			resp := int64(9)
+			var sts []started
+			select {
+			case r := <-vs.nhResp:
+				resp = nhErrClass(r.Error)
+				if r.Sid != "" {
+					resp = 98
+				}
+				sts = drainStarted(negWait)
+			case st := <-startedC:
+				sts = append(sts, st)
+				sts = append(sts, drainStarted(2*time.Millisecond)...)
+				select {
+				case r := <-vs.nhResp:
+					resp = 90 + nhErrClass(r.Error)
+				case <-time.After(negWait):
+				}
+			case <-time.After(posWait):
+			}
+			after := 0
+			for _, s := range sessions {
+				after += s.reqCount()
+			}
+			notified, ownerName, sid := false, "", ""
+			others := int64(0)
+			for k, st := range sts {
+				var sm msg.NatHoleSid
+				_ = st.conn.SetReadDeadline(time.Now().Add(time.Second))
+				e := msg.ReadMsgInto(st.conn, &sm)
+				st.conn.Close()
+				if k == 0 && e == nil && reg != nil && st.s == reg.owner {
+					notified, ownerName, sid = true, st.m.ProxyName, sm.Sid
+				} else {
+					others++
+				}
+			}
+			if !notified && after != before {
+				others++
+			}
+			opText := fmt.Sprintf("SNatHole %s %s %s %s %s %s", hx.HxS(vs.p.RunID), hx.HxS(name), hx.Z(ts), hx.HxS(sign), hx.Bool(pre), hx.HxS(sid))
+			ops = append(ops, opText)
+			obs = append(obs, obsNh(resp, notified, ownerName, sid, others, -1, -1))
+			dist[fmt.Sprintf("sys-nathole:pre=%v:resp=%d:notified=%v", pre, resp, notified)]++
+			dist["sign:"+kind]++
+			if notified {
+				ops = append(ops, fmt.Sprintf("SSessionEnd %s", hx.HxS(sid)))
+				obs = append(obs, obsZ(0))
+				if pre || kind != "right" || !(contains(allow, vs.user) || contains(allow, "*")) {
+					fail("system:nathole-owner-notified-without-key-or-user",
+						"the owner of an xtcp proxy received a sid for a pre-check, a wrongly signed request or a user outside allowUsers",
+						fmt.Sprintf("%s visitor-user=%q allow=%q", opText, vs.user, allow))
+				}
+			} else if others > 0 {
+				fail("system:nathole-owner-notified-on-refusal",
+					"an owner session was contacted for a refused or pre-check NAT-hole request",
+					fmt.Sprintf("%s resp=%d", opText, resp))
+			}
+		}
+	}
+	return fmt.Sprintf("CSys %s %s %s", ht.coq(), hx.List(ops), hx.List(obs)), fails, nil
+}
+
+func contains(l []string, x string) bool {
+	for _, y := range l {
+		if y == x {
+			return true
+		}
+	}
+	return false
+}
+
+// regNamesOf: the registered names, restricted (when filter is set) to xtcp proxies (hole) or stcp/sudp proxies
+func regNamesOf(regs map[string]*sysReg, filter, hole bool) map[string]string {
+	m := map[string]string{}
+	for k, r := range regs {
+		if !filter || (r.kind == "xtcp") == hole {
+			m[k] = ""
+		}
+	}
+	return m
+}
+
+func regNames(regs map[string]*sysReg) map[string]string {
+	m := map[string]string{}
+	for k := range regs {
+		m[k] = ""
+	}
+	return m
+}
+
+// ---- (iv) real frpc owner + real frpc visitor ----
+
+func boolsOf(i int) (bool, bool) { return i&2 != 0, i&1 != 0 }
+
+func realTransparency(g *gen, dist map[string]int, add func(string, []map[string]string)) error {
+	srv, err := hx.StartServer(realAddr, nil)
+	if err != nil {
+		return err
+	}
+	defer srv.Close()
+	echo, err := hx.StartEcho(realAddr, "")
+	if err != nil {
+		return err
+	}
+	defer echo.Close()
+	const sk = "e2e secret"
+	var proxies []v1.ProxyConfigurer
+	for p := 0; p < 4; p++ {
+		pc := &v1.STCPProxyConfig{}
+		pc.Name, pc.Type = fmt.Sprintf("e2e%d", p), "stcp"
+		pc.LocalIP, pc.LocalPort = realAddr, echo.Port()
+		pc.Secretkey = sk
+		pc.Transport.UseEncryption, pc.Transport.UseCompression = boolsOf(p)
+		proxies = append(proxies, pc)
+	}
+	owner, err := srv.StartClient(proxies, nil, func(c *v1.ClientCommonConfig) { c.User = "own" })
+	if err != nil {
+		return err
+	}
+	defer owner.Close()
+	for p := 0; p < 4; p++ {
+		if !owner.WaitProxyRunning(fmt.Sprintf("own.e2e%d", p), 5*time.Second) {
+			return fmt.Errorf("real owner proxy e2e%d not running", p)
+		}
+	}
+	type vis struct {
+		port      int
+		v, p      int
+		wrongKey  bool
+		otherUser bool
+	}
+	var visitors []v1.VisitorConfigurer
+	var vl []vis
+	mk := func(name string, v, p int, key string) int {
+		vc := &v1.STCPVisitorConfig{}
+		vc.Name, vc.Type = name, "stcp"
+		vc.ServerName = fmt.Sprintf("e2e%d", p)
+		vc.ServerUser = "own"
+		vc.SecretKey = key
+		vc.BindAddr = realAddr
+		vc.BindPort = hx.FreePort(realAddr)
+		vc.Transport.UseEncryption, vc.Transport.UseCompression = boolsOf(v)
+		visitors = append(visitors, vc)
+		return vc.BindPort
+	}
+	for v := 0; v < 4; v++ {
+		for p := 0; p < 4; p++ {
+			vl = append(vl, vis{port: mk(fmt.Sprintf("v%d%d", v, p), v, p, sk), v: v, p: p})
+		}
+	}
+	wv, wp := g.Intn(4), g.Intn(4)
+	vl = append(vl, vis{port: mk("vwrong", wv, wp, sk+"x"), v: wv, p: wp, wrongKey: true})
+	// same user as the owner: the default allowUsers admits it
+	vcli, err := srv.StartClient(nil, visitors, func(c *v1.ClientCommonConfig) { c.User = "own" })
+	if err != nil {
+		return err
+	}
+	defer vcli.Close()
+	// a visitor frpc of another user holding the right key: refused by the default allowUsers
+	ov, op := g.Intn(4), g.Intn(4)
+	visitors = nil
+	otherPort := mk("vother", ov, op, sk)
+	ocli, err := srv.StartClient(nil, visitors, func(c *v1.ClientCommonConfig) { c.User = "mallory" })
+	if err != nil {
+		return err
+	}
+	defer ocli.Close()
+	vl = append(vl, vis{port: otherPort, v: ov, p: op, otherUser: true})
+	time.Sleep(150 * time.Millisecond) // visitors' local listeners
+	for _, x := range vl {
+		var c net.Conn
+		before := echo.Count() // the tunnel (and the backend dial) is set up as soon as the user connects
+		for k := 0; k < 50; k++ {
+			c, err = net.DialTimeout("tcp", net.JoinHostPort(realAddr, fmt.Sprint(x.port)), time.Second)
+			if err == nil {
+				break
+			}
+			time.Sleep(20 * time.Millisecond)
+		}
+		if err != nil {
+			return fmt.Errorf("visitor listener %d: %v", x.port, err)
+		}
+		payload := g.Bytes(1 + g.Intn(20000))
+		if g.Chance(0.3) {
+			payload = bytes.Repeat([]byte{byte(g.Intn(256))}, 1+g.Intn(70000)) // compressible, larger than one frame
+		}
+		go func() { _, _ = c.Write(payload) }()
+		buf := make([]byte, len(payload))
+		wait := 8 * time.Second
+		if x.wrongKey || x.otherUser {
+			wait = 300 * time.Millisecond
+		}
+		_ = c.SetReadDeadline(time.Now().Add(wait))
+		_, rerr := io.ReadFull(c, buf)
+		ok := rerr == nil && bytes.Equal(buf, payload)
+		c.Close()
+		time.Sleep(5 * time.Millisecond)
+		nconn := echo.Count() - before
+		kind := 0
+		if x.wrongKey {
+			kind = 1
+		} else if x.otherUser {
+			kind = 2
+		}
+		vue, vuc := boolsOf(x.v)
+		pue, puc := boolsOf(x.p)
+		cs := fmt.Sprintf("CE2E %s %s %s %s %d %d %s %s %d", hx.Bool(vue), hx.Bool(vuc), hx.Bool(pue), hx.Bool(puc), kind, len(payload),
+			hx.Bool(ok), hx.Bool(ok), nconn)
+		var fails []map[string]string
+		if kind == 0 && (!ok || nconn != 1) {
+			fails = append(fails, map[string]string{"key": "e2e:admitted-stcp-stream-not-transparent",
+				"what": "bytes sent through a real frpc stcp visitor and a real frpc owner did not come back unchanged from the echo backend (or the backend was not contacted exactly once)",
+				"case": cs})
+		}
+		if kind != 0 && (ok || nconn != 0) {
+			fails = append(fails, map[string]string{"key": "e2e:refused-visitor-reached-backend",
+				"what": "a real frpc visitor with a wrong key or a user outside the default allowUsers reached the owner's backend",
+				"case": cs})
+		}
+		dist[fmt.Sprintf("e2e:kind=%d:ok=%v:backend=%d", kind, ok, nconn)]++
+		add(cs, fails)
+	}
+	return nil
+}
 
 func systemCases(cfg *hx.RunCfg, g *gen, n int, dist map[string]int, add func(string, []map[string]string)) error {
-	return nil
+	_ = util.GetAuthKey
+	for i := 0; i < n; i++ {
+		c, f, err := systemCase(g, dist)
+		if err != nil {
+			return fmt.Errorf("system case %d: %v", i, err)
+		}
+		add(c, f)
+	}
+	return realTransparency(g, dist, add)
 }
